@@ -391,6 +391,18 @@ func Run(cs Case, c *vrt.Ctx) {
 	}
 	var text string
 	var simple any
+	// executing a plan leaves its text as it was (what a plan compiles while it runs is its own
+	// business, what it prints is the plan)
+	if first.err == "" {
+		var before, after string
+		var px *asm.Plan
+		vrt.Catch(func() { px = asm.NewPlan(freshPlan(cs)) })
+		if px != nil {
+			if pv, _ := vrt.Catch(func() { before = px.String(); _ = run(px, freshRoot(cs)); after = px.String() }); pv == nil && !sameText(before, after) {
+				c.Fail("text-changed-by-execution", "Plan.String", fmt.Sprintf("before %s after %s; %s", clip(before), clip(after), ctx), tags...)
+			}
+		}
+	}
 	if pv, stack := vrt.Catch(func() { text = p.String(); simple = p.Simplify() }); pv != nil {
 		c.Fail("panic", "Plan.String", fmt.Sprintf("%v at %s; %s", pv, stack, ctx), tags...)
 		return
@@ -424,6 +436,23 @@ func Run(cs Case, c *vrt.Ctx) {
 		w, g := window(show(first), show(fourth))
 		c.Fail("string-round-trip", "Plan.String", fmt.Sprintf("original …%s… rebuilt …%s…; text %s; %s", w, g, clip(text), ctx), tags...)
 	}
+}
+
+// sameText: the same plan text but for the order in which the members of maps are written (Plan.String
+// does not sort them). Texts that do not read back (C20-K1) are compared as bags of bytes.
+func sameText(a, b string) bool {
+	if a == b {
+		return true
+	}
+	pa, ea := sen.Parse([]byte(a))
+	pb, eb := sen.Parse([]byte(b))
+	if ea == nil && eb == nil {
+		return canon.String(pa, canon.Typed) == canon.String(pb, canon.Typed)
+	}
+	x, y := []byte(a), []byte(b)
+	sort.Slice(x, func(i, j int) bool { return x[i] < x[j] })
+	sort.Slice(y, func(i, j int) bool { return y[i] < y[j] })
+	return string(x) == string(y)
 }
 
 // varied gives the same shape with every leaf changed.
@@ -764,8 +793,17 @@ func (g *gen) expr(kind string, depth int) any {
 		}
 	case "list":
 		if leaf {
-			if rapid.IntRange(0, 3).Draw(g.t, "lit") == 0 {
+			switch rapid.IntRange(0, 5).Draw(g.t, "lit") {
+			case 0:
 				return pick(g.t, []any{[]any{int64(1), int64(2), int64(3)}, []any{}, []any{int64(2), 2.0, "2"}, []any{[]any{int64(1)}, map[string]any{"k": "v"}}}, "listlit")
+			case 1:
+				// a list written in the plan that reaches the data through quote or through a cond
+				// clause (a later step may change it there: the plan keeps what was written)
+				lit := pick(g.t, []any{[]any{int64(1), int64(2), int64(3)}, []any{int64(7), []any{int64(8)}}}, "quoted")
+				if rapid.Bool().Draw(g.t, "viacond") {
+					return []any{"cond", []any{false, int64(0)}, []any{true, lit}}
+				}
+				return []any{"quote", lit}
 			}
 			return pick(g.t, srcLists, "listpath")
 		}
